@@ -830,12 +830,12 @@ PPL::Grid::is_universe() const {
       return false;
     }
   }
-#ifndef NDEBUG
+  // All the lines are included: the grid is either the universe or
+  // empty (the congruences need not be minimized, so an inconsistent
+  // one may still be there); the origin tells which.
   Linear_Expression expr;
   expr.set_space_dimension(space_dim);
-  PPL_ASSERT(con_sys.satisfies_all_congruences(grid_point(expr)));
-#endif
-  return true;
+  return con_sys.satisfies_all_congruences(grid_point(expr));
 }
 
 bool
